@@ -6,6 +6,7 @@ import (
 	"fmt"
 
 	tls "github.com/refraction-networking/utls"
+	"github.com/refraction-networking/utls/zz_verif/refsrv"
 	"github.com/refraction-networking/utls/zz_verif/simnet"
 	"github.com/refraction-networking/utls/zz_verif/simrt"
 	"github.com/refraction-networking/utls/zz_verif/wire"
@@ -28,8 +29,8 @@ func init() {
 	Register("C17", &Info{
 		Run:   runC17,
 		Quick: 2500, Thor: 250000,
-		Rule: "a world = one TLS 1.3 fingerprint (parrots by stratum, randomized, generated specs; no PSK, no real ECH) x one classical group the hello lists but sent no share for, forced by the server's single-entry CurvePreferences (repository or std server; no cookie - the cookie half needs the reference server); oracle: structural diff of CH1 and CH2 taken from the wire (everything equal except key_share, cookie, padding), key_share = exactly one share of the requested group with the right size, handshake completes and echoes; non-trivial = CH2 exists; distinct = (fingerprint, group, peer)",
-		Assumptions: []string{"cookie-bearing and invalid HelloRetryRequests need a byzantine server; that half is covered by the reference-server scenario when built"},
+		Rule: "a world = one TLS 1.3 fingerprint (parrots by stratum, randomized, generated specs; no PSK, no real ECH) x one classical group the hello lists but sent no share for, forced by the server's single-entry CurvePreferences (repository server, std server, or the reference server which also puts a cookie of 1..1000 bytes into the HelloRetryRequest); oracle: structural diff of CH1 and CH2 taken from the wire (everything equal except key_share, cookie, padding), key_share = exactly one share of the requested group with the right size, handshake completes and echoes; non-trivial = CH2 exists; distinct = (fingerprint, group, peer)",
+		Assumptions: []string{"invalid HelloRetryRequests (unoffered group, group already shared) are covered by C12's deviations hrr-unoffered-group and hrr-group-already-shared"},
 		Real:        []string{"utls client from /repo", "utls or std server"},
 		Stub:        []string{"transport, clock, crypto/rand"},
 	})
@@ -222,7 +223,7 @@ func runC17(c *Ctx) {
 	if !has16(of.Versions, 0x0304) {
 		return // not a TLS 1.3 fingerprint: trivial world
 	}
-	peer := ch.Pick(2, "peer")
+	peer := ch.Pick(3, "peer") // 2 = reference server, which adds a cookie to the HelloRetryRequest
 	var cands []uint16
 	for _, g := range of.Groups {
 		if (g == 23 || g == 24 || g == 25 || g == 29) && !has16(of.Shares, g) {
@@ -236,7 +237,16 @@ func runC17(c *Ctx) {
 	plan := &NegPlan{Peer: peer, Group: g}
 	scfg, stdcfg := ServerConfigs(plan)
 	payload := genPayload(ch)
-	sp := &ConnSpec{ID: f.IDI.ID, Spec: f.Spec(), CCfg: negCfg(), Peer: peer, SCfg: scfg, StdCfg: stdcfg, Payload: payload,
+	var cookie []byte
+	rcfg := refCfg()
+	if peer == PeerRef {
+		cookie = make([]byte, []int{1, 2, 32, 200, 1000}[ch.Pick(5, "cookie-len")])
+		ch.Bytes(cookie, "cookie")
+		rcfg.CurvePreferences = []refsrv.CurveID{refsrv.CurveID(g)}
+		rcfg.Byz.HRRCookie = cookie
+		rcfg.NextProtos = of.ALPN
+	}
+	sp := &ConnSpec{ID: f.IDI.ID, Spec: f.Spec(), CCfg: negCfg(), Peer: peer, SCfg: scfg, StdCfg: stdcfg, RefCfg: rcfg, Payload: payload,
 		Setup: func(l *simnet.Link) { l.Frag = ch.Bool(40, "frag") }}
 	o := RunConn(c, w, sp)
 	c.Finish(w, true)
@@ -321,8 +331,20 @@ func runC17(c *Ctx) {
 	} else if len(b.KeyShares[0].Data) != shareSize[g] {
 		diff("key-share-size", "group %d share is %d bytes", g, len(b.KeyShares[0].Data))
 	}
-	if b.Cookie != nil {
+	if cookie == nil && b.Cookie != nil {
 		diff("cookie-invented", "CH2 carries a cookie although the server sent none")
+	}
+	if cookie != nil {
+		c.Probe("hrr-with-cookie")
+		if !bytes.Equal(b.Cookie, cookie) {
+			diff("cookie-not-echoed", "server cookie %d bytes, CH2 cookie %d bytes (present=%v)", len(cookie), len(b.Cookie), b.Cookie != nil)
+		}
+		if a.Cookie != nil {
+			diff("cookie-in-first-hello", "CH1 already carries a cookie")
+		}
+		if i := b.ExtIndex(41); i >= 0 && i != len(b.Extensions)-1 {
+			diff("psk-not-last-after-cookie", "pre_shared_key at %d of %d", i, len(b.Extensions))
+		}
 	}
 	if err := CheckBoringPadding(b); err != nil && hasPadding(a, b) {
 		c.Probe("ch2-padding-checked")
